@@ -54,7 +54,8 @@ Inductive everr :=
 | EUnknownField      (* EvalErrorKind::UnknownObjectField *)
 | ENoSuper           (* EvalErrorKind::SuperWithoutSuperObject *)
 | EInfinite          (* EvalErrorKind::InfiniteRecursion *)
-| EBadAdd.           (* EvalErrorKind::InvalidBinaryOpTypes *)
+| EBadAdd            (* EvalErrorKind::InvalidBinaryOpTypes *)
+| EAssert (msg : option N).   (* EvalErrorKind::AssertFailed { message } (user message = "m<msg>") *)
 
 Notation res A := (outcome A everr).
 
@@ -88,12 +89,18 @@ Inductive field := Normal (d : fdata) | Removed (depth : N).
 Definition layer := list (name * field).
 
 (* ObjectData { self_layer, super_layers } *)
-Record obj := { self_layer : layer; super_layers : list layer }.
+(* ir::Assert of an object layer: `assert (cond) != 0 : "m<msg>"`; the condition is a body *)
+Record assertion := { a_cond : body; a_msg : option N }.
+
+(* ObjectData { self_layer, super_layers }.  ObjectLayer has [fields] and [asserts]; the
+   model keeps the asserts of all layers in a list aligned with [layers] (self layer first),
+   so that the lookup functions read plain field layers. *)
+Record obj := { self_layer : layer; super_layers : list layer; asserts : list (list assertion) }.
 
 Definition layers (o : obj) : list layer := self_layer o :: super_layers o.
 
 (* ObjectData::new_empty / the literal {} *)
-Definition empty_obj : obj := {| self_layer := []; super_layers := [] |}.
+Definition empty_obj : obj := {| self_layer := []; super_layers := []; asserts := [[]] |}.
 
 (* layer.fields.get(&name) *)
 Fixpoint layer_get (l : layer) (n : name) : option field :=
@@ -271,12 +278,14 @@ Definition get_visible_fields_order (o : obj) : list name :=
 (* ---- Program::extend_object (lhs + rhs); cloning a layer copies its fields ---- *)
 Definition extend (lhs rhs : obj) : obj :=
   {| self_layer := self_layer rhs;
-     super_layers := super_layers rhs ++ [self_layer lhs] ++ super_layers lhs |}.
+     super_layers := super_layers rhs ++ [self_layer lhs] ++ super_layers lhs;
+     asserts := asserts rhs ++ asserts lhs |}.
 
 (* ---- Program::object_with_field_removed (std.objectRemoveKey, key interned) ---- *)
 Definition remove_key (o : obj) (n : name) : obj :=
   {| self_layer := [(n, Removed (N.of_nat (length (super_layers o)) + 1))];
-     super_layers := self_layer o :: super_layers o |}.
+     super_layers := self_layer o :: super_layers o;
+     asserts := [] :: asserts o |}.
 
 (* ---- evaluation of field bodies against an object ----
    [vs] is the set of field thunks in progress, as (layer, name); re-entering
@@ -374,6 +383,40 @@ Fixpoint eval_fields (o : obj) (ns : list name) : res (list (name * value)) :=
 Definition manifest (o : obj) : res (list (name * value)) :=
   eval_fields o (get_visible_fields_order o).
 
+(* check_object_asserts: the asserts of every layer, self layer first, each against the whole
+   object from its own layer; the first failure wins.  Runs once per object, before the first
+   field access from outside (o.f) or manifestation. *)
+Fixpoint check_layer_asserts (o : obj) (layer_i : N) (l : list assertion) : res value :=
+  match l with
+  | [] => Ok VNull
+  | a :: r =>
+      do v <- eval_body eval_fuel o [] layer_i (a_cond a);
+      match v with
+      | VNum Z0 => Err (EAssert (a_msg a))
+      | _ => check_layer_asserts o layer_i r
+      end
+  end.
+
+Fixpoint check_asserts_from (o : obj) (layer_i : N) (ls : list (list assertion)) : res value :=
+  match ls with
+  | [] => Ok VNull
+  | l :: r => do _u <- check_layer_asserts o layer_i l; check_asserts_from o (layer_i + 1) r
+  end.
+
+Definition check_asserts (o : obj) : res value := check_asserts_from o 0 (asserts o).
+
+(* o.n and manifestation as seen from outside: asserts first *)
+(* want_field: the field is looked up first (unknown field wins), then the asserts run, then the thunk *)
+Definition index_field (o : obj) (n : name) : res value :=
+  do r <- find_field o 0 n;
+  match r with
+  | None => Err EUnknownField
+  | Some (j, d) => do _u <- check_asserts o; eval_thunk eval_fuel o [] j n d
+  end.
+
+Definition manifest_checked (o : obj) : res (list (name * value)) :=
+  do _u <- check_asserts o; manifest o.
+
 (* std.length(o) *)
 Definition obj_length (o : obj) : N := N.of_nat (length (get_visible_fields_order o)).
 
@@ -384,9 +427,12 @@ Definition done_field (r : res value) : field :=
 
 Definition simple_obj (fs : list (name * res value)) : obj :=
   {| self_layer := map (fun nr : name * res value => (fst nr, done_field (snd nr))) fs;
-     super_layers := [] |}.
+     super_layers := [];
+     asserts := [[]] |}.
 
-(* std.mapWithKey(function(k, v) v + c, o): lazy call thunks over the visible fields *)
+(* std.mapWithKey(function(k, v) v + c, o): lazy call thunks over the visible fields.
+   The asserts of o run lazily, at the first self.g met while one of these thunks is forced;
+   that is NOT modelled: generated programs keep the sources of mapWithKey free of asserts. *)
 Definition map_with_key (c : Z) (o : obj) : obj :=
   simple_obj (map (fun n => (n, do v <- eval_field o n; add_values v (VNum c)))
                   (get_visible_fields_order o)).
@@ -403,6 +449,7 @@ Fixpoint prune_fields (o : obj) (ns : list name) : res (list (name * res value))
   end.
 
 Definition prune (o : obj) : res obj :=
+  do _u <- check_asserts o;
   do fs <- prune_fields o (get_visible_fields_order o);
   Ok (simple_obj fs).
 
@@ -427,12 +474,14 @@ Definition merge_patch (t p : obj) : res obj :=
   let pf := get_visible_fields_order p in
   let tf := get_visible_fields_order t in
   let kept := map (fun n => (n, eval_field t n)) (filter (fun n => negb (name_in n pf)) tf) in
+  do _u <- check_asserts t;
+  do _v <- check_asserts p;
   do patched <- merge_patch_fields t p tf pf;
   Ok (simple_obj (kept ++ patched)).
 
 (* ---- object expressions: what the generated programs denote ---- *)
 Inductive oexpr :=
-| OLit (l : layer)                 (* an object literal (one layer of Normal fields) *)
+| OLit (l : layer) (a : list assertion)   (* an object literal: one layer of Normal fields, its asserts *)
 | OPlus (a b : oexpr)              (* a + b *)
 | ORemove (e : oexpr) (n : name)   (* std.objectRemoveKey(e, n) *)
 | OMapKey (c : Z) (e : oexpr)      (* std.mapWithKey(function(k, v) v + c, e) *)
@@ -441,7 +490,7 @@ Inductive oexpr :=
 
 Fixpoint build (e : oexpr) : res obj :=
   match e with
-  | OLit l => Ok {| self_layer := l; super_layers := [] |}
+  | OLit l a => Ok {| self_layer := l; super_layers := []; asserts := [a] |}
   | OPlus a b => do x <- build a; do y <- build b; Ok (extend x y)
   | ORemove e n => do x <- build e; Ok (remove_key x n)
   | OMapKey c e => do x <- build e; Ok (map_with_key c x)
